@@ -72,7 +72,10 @@ Einsums == {[out |-> o, terms |-> e] : o \in Outs, e \in Exprs}
 \* rendering under a spacing style: s = separator put at every optional position
 RECURSIVE Join(_, _)
 Join(ss, sep) == IF ss = <<>> THEN "" ELSE IF Len(ss) = 1 THEN ss[1] ELSE ss[1] \o sep \o Join(Tail(ss), sep)
-RITerm(t, s) == IF t.c = 1 THEN t.v ELSE ToString(t.c) \o s \o "*" \o s \o t.v
+\* a negative coefficient is the two tokens "-" NUMBER: spacing between them is insignificant as well
+RITerm(t, s) == IF t.c = 1 THEN t.v
+                ELSE IF t.c < 0 THEN "-" \o s \o ToString(0 - t.c) \o s \o "*" \o s \o t.v
+                ELSE ToString(t.c) \o s \o "*" \o s \o t.v
 RIExpr(e, s) == Join([i \in 1..Len(e) |-> RITerm(e[i], s)], s \o "+" \o s)
 RAccess(a, s) == a.name \o s \o "[" \o s \o Join([i \in 1..Len(a.idx) |-> RIExpr(a.idx[i], s)], s \o "," \o s) \o s \o "]"
 RFactor(f, s) == IF f.k = "t" THEN RAccess(f, s) ELSE f.name
@@ -87,7 +90,9 @@ EinsumMisses == Miss("einsum", {
      <<"Z[m] = A[m*2]", "coefficient comes first">>, <<"Z[m] = A[2*3]", "an index term needs a variable">>, <<"Z[m] = A[m] B[m]", "missing operator">>,
      <<"Z[m] = A[m],", "trailing token">>, <<"= A[m]", "missing output">>, <<"Z = A[m]", "the output is an access">>, <<"Z[m] = A[m] + + B[m]", "doubled operator">>,
      <<"Z[m] = A[m] - B[m]", "no subtraction of terms">>, <<"Z[m] = (A[m])", "no parentheses">>, <<"Z[m] = take(A[m], B[m], k)", "the selector is a number">>,
-     <<"Z[m] = A[m] * take(B[m], C[m], 0)", "take is a whole term">>, <<"Z[m] = A[m;n]", "illegal separator">>, <<"Z[m] = A[m] = B[m]", "two =">>, <<"", "empty">>})
+     <<"Z[m] = A[m] * take(B[m], C[m], 0)", "take is a whole term">>, <<"Z[m] = A[m;n]", "illegal separator">>, <<"Z[m] = A[m] = B[m]", "two =">>, <<"", "empty">>,
+     <<"Z[m] = A[+2*m]", "no unary plus">>, <<"Z[m] = A[k + +2*m]", "no unary plus">>, <<"Z[m] = A[k ++ m]", "doubled +">>, <<"Z[m] = A[--2*m]", "doubled sign">>,
+     <<"Z[m] = A[2*-m]", "sign after *">>, <<"Z[m] = A[-m]", "a sign needs a number">>})
 -----------------------------------------------------------------------------
 All == Directives \cup DirectiveMisses \cup Levels \cup LevelMisses \cup Stamps \cup StampMisses \cup Tuples \cup TupleMisses \cup EinsumSents \cup EinsumMisses
 VARIABLE s
